@@ -828,7 +828,7 @@ class DNA(symbolic.Object):
         if not isinstance(self.value, int):
           raise ValueError(
               f'DNA value type mismatch. Value: {self.value}, Spec: {spec!r}.')
-        if self.value >= len(spec.candidates):
+        if self.value < 0 or self.value >= len(spec.candidates):
           raise ValueError(
               f'Value of DNA is out of range according to the DNA spec. '
               f'Value: {self.value}, Spec: {spec!r}.')
@@ -1358,7 +1358,7 @@ class DNA(symbolic.Object):
             raise ValueError(
                 f'Choice value should be int. Encountered: {choice}, '
                 f'Location: {choice_location.path}.')
-          if choice >= len(dna_spec.candidates):
+          if choice < 0 or choice >= len(dna_spec.candidates):
             raise ValueError(
                 f'Choice out of range. Value: {choice}, '
                 f'Candidates: {len(dna_spec.candidates)}, '
